@@ -117,7 +117,7 @@ pub fn execute(plan: &Plan, entropy: u64) -> RunReport {
             }
             let mut r = RunReport::default();
             let fired = run_once(&p, entropy, &mut r, &format!("[fail#{i}@{s}] "));
-            rep.inner_evaluations += 1;
+            rep.inner_evaluations += 1 + r.inner_evaluations;
             rep.log.extend(r.log);
             rep.violations.extend(r.violations);
             for (k, v) in r.faults {
@@ -291,6 +291,7 @@ impl<'a> World<'a> {
         let txt = self.san(&v.to_string());
         self.rep.state.write_str(&txt);
         let os = self.os.lock();
+        self.rep.sim_time_ms += os.waits_ms;
         let procs: Vec<String> = os.procs.values().map(|p| format!("{}:{}", p.label, p.pid)).collect();
         let inst: Vec<String> = os.installed.keys().cloned().collect();
         drop(os);
